@@ -182,6 +182,12 @@ func (lw *l2world) doSync(tr *vhlib.Trace, p vhlib.ParsedLine, pick func(n int, 
 		if st == "a" && cache == "-" {
 			break
 		}
+		if cache != "-" && !restart {
+			// the in-memory tip is behind the database: whatever this process does next (re-applying applied
+			// blocks) is a consequence of that one failure; the sweep of this call ends here and the retry
+			// below shows whether the indexer recovers
+			break
+		}
 	}
 	w.main.inj.Count()
 	retry := lw.main.sync()
